@@ -274,19 +274,27 @@ func c01Traced(ctx *Ctx, tag *int) {
 			}))
 			e.be.Default = fb.Outcome{Kind: fb.OkRows}
 		}
-		recs := proxycore.VerifTraceStop()
+		emitTrace(ctx, tally.zero == 0, fmt.Sprintf("traced-run: %d requests, %d answered once", tally.requests, tally.one))
 		e.close()
-		kinds := map[string]int64{"table": 0, "push": 1, "pop": 2, "notify": 3, "closing": 4, "start": 5, "host": 6, "decision": 7, "reply": 8, "onclose": 9}
-		var rv []hv.V
-		for _, x := range recs {
-			rv = append(rv, hv.L(hv.I(kinds[x.Kind]), hv.I(x.Table), hv.I(x.Stream), hv.I(x.Req), hv.I(x.ReqKind), hv.I(x.Obj), hv.I(x.A), hv.I(x.B), hv.I(x.C), hv.S(x.S)))
-			ctx.Count("trace-record:" + x.Kind)
-		}
-		quiescent := tally.zero == 0
-		ctx.Emit(hv.L(hv.I(8), hv.Bool(quiescent), hv.L(rv...)), hv.L(hv.I(0)),
-			fmt.Sprintf("traced-run: %d records, %d requests, %d answered once", len(recs), tally.requests, tally.one))
-		ctx.Count("traced-run")
 	}
+}
+
+// emitTrace stops the recording started with proxycore.VerifTraceStart and hands the records to the monitor as one case.
+// quiescent: every request of the run has been answered and read, so nothing may be left unanswered or registered.
+func emitTrace(ctx *Ctx, quiescent bool, note string) {
+	recs := proxycore.VerifTraceStop()
+	kinds := map[string]int64{"table": 0, "push": 1, "pop": 2, "notify": 3, "closing": 4, "start": 5, "host": 6, "decision": 7, "reply": 8, "onclose": 9}
+	var rv []hv.V
+	reprepares := 0
+	for _, x := range recs {
+		rv = append(rv, hv.L(hv.I(kinds[x.Kind]), hv.I(x.Table), hv.I(x.Stream), hv.I(x.Req), hv.I(x.ReqKind), hv.I(x.Obj), hv.I(x.A), hv.I(x.B), hv.I(x.C), hv.S(x.S)))
+		ctx.Count("trace-record:" + x.Kind)
+		if x.Kind == "push" && x.ReqKind >= 2 {
+			reprepares++
+		}
+	}
+	ctx.Emit(hv.L(hv.I(8), hv.Bool(quiescent), hv.L(rv...)), hv.L(hv.I(0)), fmt.Sprintf("%s (%d records, %d re-PREPAREs)", note, len(recs), reprepares))
+	ctx.Count("traced-run")
 }
 
 // c01UnpreparedSaturated: all but one stream id of the only backend connection are in use;
